@@ -153,13 +153,17 @@ def run_harness(scr, unit, h, tier):
     checks, verdict, vt = parse_kani(out)
     res = {"harness": h["name"], "full": full, "unit": unit["unit"], "cmd": " ".join(cmd), "wall_s": round(wall, 2),
            "solver_s": vt, "checks": len(checks), "verdict": verdict, "timed_out": timed_out,
-           "failed": [c for c in checks if c["status"] == "FAILURE"],
+           "failed": [c for c in checks if c["status"] == "FAILURE"
+                      and not (h.get("ignore_nan") and (c["desc"].startswith("NaN on") or "NaN" in c["name"]))],
            "undetermined": [c for c in checks if c["status"] in ("UNDETERMINED", "ERROR")],
            "covers": [c for c in checks if c["status"] in ("SATISFIED", "UNSATISFIABLE", "UNREACHABLE")
                       and ".cover." in c["name"]],
            "unreachable_asserts": [c for c in checks if c["status"] == "UNREACHABLE" and "harness/" in c["loc"]
                                    and c["desc"].startswith("assertion failed")],
            "out_tail": out[-6000:]}
+    if h.get("ignore_nan") and verdict == "FAILED" and not res["failed"] and not res["undetermined"] and checks:
+        res["verdict"] = "SUCCESSFUL"
+        res["note"] = "float NaN checks ignored (not Rust panics)"
     if "Stub:" in out:
         res["stubs_applied"] = sorted(set(re.findall(r"- Stub: (.*)", out)))
     return res
